@@ -8,16 +8,14 @@ open Upnp PyDict
 /-- one step of the invariant: the judge accepts the model's step and the routing table stays the
     publisher-side fold — with a requester that answers at once (`susp = false`) or suspends (`susp = true`) -/
 theorem step_ok (cfg : Cfg) (susp : Bool) (probes : List Str) (nsvc : Nat) (rt : Routing) (c : Call) (rs : List Reaction)
-    (hn : (keys rt).Nodup) (hw : callWF c)
-    (hs : stepInScope (modelStepS cfg susp probes nsvc rt c rs) = true) :
+    (hn : (keys rt).Nodup) (hw : callWF c) :
     stepOk rt (modelStepS cfg susp probes nsvc rt c rs) = true
     ∧ (modelStepS cfg susp probes nsvc rt c rs).exch.foldl foldExch rt = (runCallS cfg susp rt c rs).rt := by
   have h := judgeFacts_runCallS cfg susp rt c rs hn hw
-  have hs' : (runCallS cfg susp rt c rs).exch.all exchInScope = true := hs
-  have hm := h.mirror hs'
+  have hm := h.mirror
   refine ⟨?_, hm⟩
   simp only [stepOk, Bool.and_eq_true]
-  refine ⟨⟨⟨⟨?_, h.result hs' _ _⟩, h.target _ _⟩, h.fallback⟩, h.valid⟩
+  refine ⟨⟨⟨⟨?_, h.result _ _⟩, h.target _ _⟩, h.fallback⟩, h.valid⟩
   show routedOk ((runCallS cfg susp rt c rs).exch.foldl foldExch rt) _ = true
   rw [hm]
   exact routedOk_model probes nsvc _ h.nodup _ _ _
@@ -30,12 +28,9 @@ theorem history_from (cfg : Cfg) (susp : Bool) (probes : List Str) (nsvc : Nat) 
   | cons p rest ih =>
     obtain ⟨c, rs⟩ := p
     simp only [modelTraceS, okFrom]
-    split
-    · rename_i hs
-      have h := step_ok cfg susp probes nsvc rt c rs hn (hw (c, rs) List.mem_cons_self) hs
-      rw [h.1, h.2, Bool.true_and]
-      exact ih (fun q hq => hw q (List.mem_cons_of_mem _ hq)) _
-        (judgeFacts_runCallS cfg susp rt c rs hn (hw (c, rs) List.mem_cons_self)).nodup
-    · rfl
+    have h := step_ok cfg susp probes nsvc rt c rs hn (hw (c, rs) List.mem_cons_self)
+    rw [h.1, h.2, Bool.true_and]
+    exact ih (fun q hq => hw q (List.mem_cons_of_mem _ hq)) _
+      (judgeFacts_runCallS cfg susp rt c rs hn (hw (c, rs) List.mem_cons_self)).nodup
 
 end Upnp.C09
